@@ -63,6 +63,46 @@ pub fn context_text(ctx: usize, filler: &str, n: usize) -> String {
     CONTEXTS[ctx].replace("{}", &deep)
 }
 
+/// one level of nesting around `t` (parentheses leave no node, they only keep the text valid)
+pub const WRAPPERS: [&str; 20] = [
+    "neg", "not", "paren", "call", "user-call", "list1", "list40", "map1", "map40", "if-else", "if-then", "if-cond", "field", "pos", "add-left", "add-right", "and-left", "eq-left", "contains-left", "in-right",
+];
+
+fn wrap_once(w: &str, t: &str) -> String {
+    match w {
+        "neg" => format!("-({t})"),
+        "not" => format!("!({t})"),
+        "paren" => format!("({t})"),
+        "call" => format!("is_some({t})"),
+        "user-call" => format!("f({t})"),
+        "list1" => format!("[{t}]"),
+        "list40" => format!("[{t}{}]", ", x".repeat(39)),
+        "map1" => format!("{{a: {t}}}"),
+        "map40" => format!("{{a: {t}{}}}", (0..39).map(|i| format!(", k{i}: x")).collect::<String>()),
+        "if-else" => format!("if b then x else ({t})"),
+        "if-then" => format!("if b then ({t}) else x"),
+        "if-cond" => format!("if ({t}) then b else b"),
+        "field" => format!("({t}).a"),
+        "pos" => format!("({t}).0"),
+        "add-left" => format!("({t}) + x"),
+        "add-right" => format!("x + ({t})"),
+        "and-left" => format!("({t}) and b"),
+        "eq-left" => format!("({t}) == x"),
+        "contains-left" => format!("({t}) contains x"),
+        "in-right" => format!("x in ({t})"),
+        _ => t.to_string(),
+    }
+}
+
+/// n levels around `x`, wrappers a and b taking turns (a outermost when n is odd)
+pub fn alternation_text(a: &str, b: &str, n: usize) -> String {
+    let mut t = String::from("x");
+    for i in 0..n {
+        t = wrap_once(if i % 2 == 0 { b } else { a }, &t);
+    }
+    t
+}
+
 pub const OPS: [&str; 9] = ["parse", "rule-parse", "display", "debug", "clone", "eq", "drop", "evaluate", "rule-eq"];
 
 pub fn text_for(construct: &str, n: usize) -> String {
@@ -74,6 +114,11 @@ pub fn text_for(construct: &str, n: usize) -> String {
                     return context_text(i, f, n);
                 }
             }
+        }
+    }
+    if let Some(rest) = construct.strip_prefix("alt:") {
+        if let Some((a, b)) = rest.split_once(':') {
+            return alternation_text(a, b, n);
         }
     }
     match construct {
@@ -268,7 +313,95 @@ pub fn child(args: &[String]) -> ! {
 enum Exit {
     Completed,
     Crashed(String),
+    Hung(u64),
     Other(String),
+}
+
+/// like `run_child`, but the child is killed when it has not finished after `secs` seconds
+fn run_child_limited(construct: &str, op: &str, depth: usize, stack: &str, secs: u64) -> Exit {
+    use std::time::{Duration, Instant};
+    let exe = std::env::current_exe().unwrap();
+    let child = Command::new(exe)
+        .args(["c19-child", construct, op, &depth.to_string(), stack])
+        .env("RUST_BACKTRACE", "0")
+        .stdout(std::process::Stdio::null())
+        .stderr(std::process::Stdio::null())
+        .spawn();
+    let mut child = match child {
+        Ok(c) => c,
+        Err(e) => return Exit::Other(format!("cannot spawn: {e}")),
+    };
+    let start = Instant::now();
+    loop {
+        match child.try_wait() {
+            Ok(Some(st)) => {
+                use std::os::unix::process::ExitStatusExt;
+                if let Some(sig) = st.signal() {
+                    return Exit::Crashed(format!("signal {sig}"));
+                }
+                return match st.code() {
+                    Some(0) => Exit::Completed,
+                    Some(c) => Exit::Other(format!("exit {c}")),
+                    None => Exit::Other("no exit code".into()),
+                };
+            }
+            Ok(None) => {
+                if start.elapsed() > Duration::from_secs(secs) {
+                    let _ = child.kill();
+                    let _ = child.wait();
+                    return Exit::Hung(secs);
+                }
+                std::thread::sleep(Duration::from_millis(if start.elapsed() < Duration::from_millis(200) { 2 } else { 50 }));
+            }
+            Err(e) => return Exit::Other(e.to_string()),
+        }
+    }
+}
+
+pub const ALT_OPS: [&str; 8] = ["parse", "rule-parse", "display", "debug", "clone", "eq", "drop", "evaluate"];
+pub const ALT_DEPTH: usize = 64;
+pub const ALT_SECONDS: u64 = 30;
+
+/// every ordered pair of wrappers taking turns for 64 levels (far below every crash threshold),
+/// under every operation: the run completes within the time limit.  Work that doubles per level
+/// (a renderer or evaluator that visits an operand twice) cannot: 2^32 visits do not fit.
+fn alternation_leg(acc: &mut Acc) -> (u64, u64) {
+    let mut cells: Vec<(String, &str)> = Vec::new();
+    for a in WRAPPERS {
+        for b in WRAPPERS {
+            for o in ALT_OPS {
+                cells.push((format!("alt:{a}:{b}"), o));
+            }
+        }
+    }
+    let results: Vec<(usize, Exit)> = cells.par_iter().enumerate().map(|(i, (c, o))| (i, run_child_limited(c, o, ALT_DEPTH, "main", ALT_SECONDS))).collect();
+    let n = cells.len() as u64;
+    for (i, r) in results {
+        let (c, o) = &cells[i];
+        match r {
+            Exit::Completed => acc.outcome(format!("{o}:alternation-completes")),
+            Exit::Other(m) if m == "exit 3" => acc.violation(Violation {
+                sig: format!("alternation/{o}/{c}/unequal"),
+                what: format!("{o} of {c} at depth {ALT_DEPTH}: the tree does not equal its own second parse"),
+                case: json!({"kind": "alternation", "construct": c, "op": o, "depth": ALT_DEPTH}),
+                size: ALT_DEPTH,
+            }),
+            Exit::Other(m) => acc.machinery(format!("alternation {c}/{o}: {m}")),
+            Exit::Hung(secs) => acc.violation(Violation {
+                sig: format!("alternation/{o}/{c}/does-not-complete"),
+                what: format!("{o} of {ALT_DEPTH} levels of {c} (`{}...`, {} bytes) on the main thread does not complete within {secs} s; the same operation on each construct alone is immediate", alternation_text(c[4..].split(':').next().unwrap_or(""), c[4..].split(':').nth(1).unwrap_or(""), 3).chars().take(100).collect::<String>(), text_for(c, ALT_DEPTH).len()),
+                case: json!({"kind": "alternation", "construct": c, "op": o, "depth": ALT_DEPTH}),
+                size: ALT_DEPTH,
+            }),
+            Exit::Crashed(how) => acc.violation(Violation {
+                sig: format!("alternation/{o}/{c}/crash"),
+                what: format!("{o} of {ALT_DEPTH} levels of {c} on the main thread kills the process ({how})"),
+                case: json!({"kind": "alternation", "construct": c, "op": o, "depth": ALT_DEPTH}),
+                size: ALT_DEPTH,
+            }),
+        }
+    }
+    (n, n)
 }
 
 fn run_child(construct: &str, op: &str, depth: usize, stack: &str) -> Exit {
@@ -374,6 +507,10 @@ pub fn run(tier: Tier) -> i32 {
                         other.push(format!("{c}/{o}/{s} depth {d}: {m}"));
                         break;
                     }
+                    Exit::Hung(t) => {
+                        other.push(format!("{c}/{o}/{s} depth {d}: no result after {t} s"));
+                        break;
+                    }
                 }
             }
             // thorough: bisect the threshold between the last good and the first bad depth
@@ -430,11 +567,14 @@ pub fn run(tier: Tier) -> i32 {
             }
         }
     }
+    let (alt_cells, alt_runs) = alternation_leg(&mut acc);
+    total_runs += alt_runs;
+    rep.bound("alternation_leg", format!("{} x {} ordered pairs of wrappers ({:?}) x {} operations at depth {ALT_DEPTH}, {ALT_SECONDS} s limit per run", WRAPPERS.len(), WRAPPERS.len(), WRAPPERS, ALT_OPS.len()));
     acc.count("executions", total_runs);
     acc.sample("child-run", 1, || json!({"construct": "if-cond-chain", "op": "evaluate", "depth": 2000, "stack": "main", "text_prefix": text_for("if-cond-chain", 2).chars().take(40).collect::<String>()}));
     rep.absorb(acc);
     rep.extra.insert("crash_thresholds".into(), json!(thresholds));
-    rep.states = cells.len() as u64;
+    rep.states = cells.len() as u64 + alt_cells;
     rep.transitions = total_runs;
     rep.traces = total_runs;
     rep.rule = "E7 process grid: every (recursive construct x operation x stack) cell is driven up a depth ladder (10, 20, 50, ... 100000; thorough additionally every depth 1..256 and a bisection of each crash threshold), each run in a child process whose exit status is the observation; states = cells, transitions = child runs".into();
@@ -448,6 +588,16 @@ pub fn replay(case: &serde_json::Value) -> i32 {
     let o = case.get("op").and_then(|s| s.as_str()).unwrap_or("");
     let d = case.get("depth").and_then(|s| s.as_u64()).unwrap_or(1) as usize;
     let s = case.get("stack").and_then(|s| s.as_str()).unwrap_or("main");
+    if case.get("kind").and_then(|k| k.as_str()) == Some("alternation") {
+        let r = run_child_limited(c, o, d, "main", ALT_SECONDS);
+        println!("{o} on {c} depth {d}: {r:?}");
+        return match r {
+            Exit::Completed => 0,
+            Exit::Hung(_) | Exit::Crashed(_) => 1,
+            Exit::Other(m) if m == "exit 3" => 1,
+            Exit::Other(_) => 2,
+        };
+    }
     let r1 = run_child(c, o, d, s);
     let r2 = run_child(c, o, d, s);
     println!("{o} on {c} depth {d} stack {s}: {r1:?}");
@@ -458,6 +608,6 @@ pub fn replay(case: &serde_json::Value) -> i32 {
     match r1 {
         Exit::Completed => 0,
         Exit::Crashed(_) => 1,
-        Exit::Other(_) => 2,
+        Exit::Other(_) | Exit::Hung(_) => 2,
     }
 }
